@@ -191,6 +191,12 @@ def oracle_valid(case):
     sc = Sidecar(io.StringIO(json.dumps(case["doc"])), name="generated")
     extra = DefinitionDict(["(Definition/OutsideDef, (Item-count/3))"], sch)
     runs = [sc.validate(sch, extra_def_dicts=extra) for _ in range(3)]
+    # the document is then edited through the object and validated again: the new column is screened like any other
+    sc.loaded_dict["added_later"] = {"HED": {"x": "Red, {no_such_column_at_all}"}}
+    later = {i["code"] for i in sc.validate(sch, extra_def_dicts=extra) if i["severity"] == 1}
+    if "SIDECAR_BRACES_INVALID" not in later:
+        out.bad("column-added-after-first-validation-not-screened", f"{json.dumps(case['doc'])[:400]} -> {sorted(later)}")
+    del sc.loaded_dict["added_later"]
     for k, r in enumerate(runs):
         errs = sorted({i["code"] for i in r if i["severity"] == 1})
         if errs:
